@@ -24,7 +24,7 @@ Section HmacProofs.
   Variable h_init : ctxT.
   Variable h_update : ctxT -> list N -> ctxT.
   Variable h_final : ctxT -> list N * ctxT.
-  Variable h_wipe : ctxT -> ctxT.
+  Variables h_wipe_i h_wipe_o : ctxT -> ctxT.
   Variable H : list N -> list N.
   Variable dlen : nat.
   Hypothesis Hstream : forall parts, fst (h_final (fold_left h_update parts h_init)) = H (concat parts).
@@ -34,7 +34,7 @@ Section HmacProofs.
   Let hinit := hmac_init ctxT h_init h_update h_final 64 (N.of_nat dlen) 54 92.
   Let hupdate := hmac_update ctxT h_update.
   Let hfinal_internal := hmac_final_internal ctxT h_update h_final (N.of_nat dlen).
-  Let hfinal := hmac_final ctxT h_update h_final h_wipe (N.of_nat dlen).
+  Let hfinal := hmac_final ctxT h_update h_final h_wipe_i h_wipe_o (N.of_nat dlen).
   Let hbuf := hmac_buf ctxT h_init h_update h_final 64 (N.of_nat dlen) 54 92 (N.of_nat dlen).
 
   Definition K0pad (v : N) (K : list N) : list N := map (fun b => N.lxor b v) (hmac_K0 H K).
@@ -109,8 +109,8 @@ Section HmacProofs.
   Qed.
 
   Lemma hmac_final_snd c :
-    snd (hfinal c) = mkhmac ctxT (h_wipe (snd (h_final (hm_ictx ctxT c))))
-                            (h_wipe (snd (h_final (h_update (hm_octx ctxT c)
+    snd (hfinal c) = mkhmac ctxT (h_wipe_i (snd (h_final (hm_ictx ctxT c))))
+                            (h_wipe_o (snd (h_final (h_update (hm_octx ctxT c)
                                      (firstn dlen (fst (h_final (hm_ictx ctxT c)))))))).
   Proof.
     unfold hfinal, hmac_final, hmac_final_internal. rewrite Nat2N.id.
